@@ -123,8 +123,10 @@ Definition shared0 : shared :=
 Inductive variant := Defective | Repaired | LoadAndDel.
 (* cardinality.go / registry.go: a registration that leaves MaxSeriesPerMetric at its zero value gets the default cap;
    a negative value means "no cap" (every check is guarded by MaxSeriesPerMetric > 0) *)
-Definition default_cap : Z := 10000.               (* DefaultMaxSeriesPerMetric *)
-Definition eff_cap (raw : Z) : Z := if raw =? 0 then default_cap else raw.
+Definition default_cap : Z := 10000.               (* DefaultMaxSeriesPerMetric at /repo HEAD; the VALUE is a free choice *)
+(* dflt = the default the implementation applies (its exported constant, reported by the harness) *)
+Definition eff_cap_with (dflt raw : Z) : Z := if raw =? 0 then dflt else raw.
+Definition eff_cap (raw : Z) : Z := eff_cap_with default_cap raw.
 
 Record cfg := { c_kind : kind; c_cap : Z;       (* eff_cap of the registered MaxSeriesPerMetric; <= 0 means unbounded *)
                 c_nlabels : nat; c_buckets : list Z; c_variant : variant }.
@@ -446,8 +448,10 @@ Definition sub_drain (n : nat) (b : sub) : sub * nat :=
   let k := Nat.min n (sb_len b) in
   ({| sb_len := (sb_len b - k)%nat; sb_cap := sb_cap b; sb_dropped := sb_dropped b;
       sb_delivered := sb_delivered b; sb_unsub := sb_unsub b |}, k).
-Definition sub_new (bufsize : Z) : sub :=
-  {| sb_len := O; sb_cap := if bufsize <=? 0 then 256%nat else Z.to_nat bufsize;
+(* Subscribe: BufferSize > 0 is honoured; BufferSize <= 0 gets a default capacity.  The property does not fix that default
+   (any channel capacity keeps publish non-blocking), so it is a parameter: the capacity the implementation chose. *)
+Definition sub_new (dflt : nat) (bufsize : Z) : sub :=
+  {| sb_len := O; sb_cap := if bufsize <=? 0 then dflt else Z.to_nat bufsize;
      sb_dropped := 0; sb_delivered := 0; sb_unsub := false |}.
 Definition sub_unsub (b : sub) : sub :=
   {| sb_len := sb_len b; sb_cap := sb_cap b; sb_dropped := sb_dropped b;
@@ -556,7 +560,7 @@ Definition sshared0 : sshared :=
 (* how Subscription.publish sends: the code uses select/default; BlockingSend is the hypothetical `ch <- u` *)
 Inductive sendmode := SelectDefault | BlockingSend.
 Inductive mpc := MNone | M1 | M2 | M3 | O1 | O2.
-Inductive sop := SSubscribe (buf : Z) | SUnsubscribe (k : nat) | STick | SSnapshot | SDrain (k n : nat).
+Inductive sop := SSubscribe (buf : Z) (dflt : nat) (* dflt: default capacity chosen by the implementation *) | SUnsubscribe (k : nat) | STick | SSnapshot | SDrain (k n : nat).
 Inductive spc :=
 | SIdle
 | SSub1                                   (* subscriberCount.Add(1), after subscribers.Store *)
@@ -612,7 +616,7 @@ Definition xstep_aux (mode : sendmode) (s : shared) (ss : sshared) (a : auxthrea
       | o :: rest =>
           let a := {| a_pc := SIdle; a_prog := rest; a_snaps := a_snaps a |} in
           match o with
-          | SSubscribe buf => Some (set_subs ss (ss_subs ss ++ [sub_new buf]), agoto a SSub1)
+          | SSubscribe buf dflt => Some (set_subs ss (ss_subs ss ++ [sub_new dflt buf]), agoto a SSub1)
           | SUnsubscribe k =>                      (* unsubscribed.Swap(true) *)
               match nth_error (ss_subs ss) k with
               | Some b => if sb_unsub b then Some (ss, a)
